@@ -1495,6 +1495,13 @@ fn is_subsequence(small: &str, big: &str) -> bool {
     small.chars().all(|c| it.any(|d| d == c))
 }
 
+enum Shrunk {
+    To(String, String),
+    OutOfTime,
+    /// the input itself does not fail this way in a run of its own with the full deadline
+    NotReproduced,
+}
+
 struct Shrinker<'a> {
     prober: &'a Prober,
     /// minimal failing fragments found so far, per signature (verified with the full deadline)
@@ -1576,19 +1583,19 @@ impl Shrinker<'_> {
         cur
     }
 
-    /// A sub-text of `text` (obtained by deletions only) that still fails with `sig`,
-    /// 1-minimal unless cut short, with the detail of its own run. None if out of time.
-    fn shrink(&mut self, text: &str, sig: &str) -> Option<(String, String)> {
+    /// A smaller text that still fails with `sig` (deletions, then canonical tokens),
+    /// 1-minimal unless cut short, with the detail of its own run.
+    fn shrink(&mut self, text: &str, sig: &str) -> Shrunk {
         if let Some(frags) = self.minimal.get(sig) {
             // a fragment already verified to fail this way and obtainable from `text` by
             // deletions is a valid result of shrinking `text`
-            if let Some(f) = frags.iter().find(|(f, _)| is_subsequence(f, text)) {
-                return Some(f.clone());
+            if let Some((f, d)) = frags.iter().find(|(f, _)| is_subsequence(f, text)) {
+                return Shrunk::To(f.clone(), d.clone());
             }
         }
         if self.out_of_time() {
             self.cut_short += 1;
-            return None;
+            return Shrunk::OutOfTime;
         }
         let mut budget: i64 = 3000;
         let mut cur = text.to_string();
@@ -1609,6 +1616,18 @@ impl Shrinker<'_> {
         while budget > 0 && !self.out_of_time() {
             let units = split_units(&cur);
             let mut cands: Vec<String> = vec![];
+            // all occurrences of one token at once (tags and labels have to stay equal) ...
+            let mut seen: Vec<&str> = vec![];
+            for u in units.iter().filter(|u| !u.ws) {
+                if seen.contains(&u.text.as_str()) || units.iter().filter(|x| x.text == u.text).count() < 2 {
+                    continue;
+                }
+                seen.push(&u.text);
+                for c in CANON.iter().take(rank(&u.text)) {
+                    cands.push(units.iter().map(|x| if x.text == u.text { *c } else { x.text.as_str() }).collect());
+                }
+            }
+            // ... then one token at a time
             for (i, u) in units.iter().enumerate().filter(|(_, u)| !u.ws) {
                 for c in CANON.iter().take(rank(&u.text)) {
                     let mut v: Vec<&str> = units.iter().map(|x| x.text.as_str()).collect();
@@ -1646,10 +1665,13 @@ impl Shrinker<'_> {
             self.cut_short += 1;
             cur = text.to_string();
             pr = self.prober.verify(&Case::plain(cur.clone()));
+            if !pr.has(sig) {
+                return Shrunk::NotReproduced;
+            }
         }
         let detail = pr.fails.iter().find(|(s, _)| s == sig).map(|(_, d)| d.clone()).unwrap_or_default();
         self.minimal.entry(sig.to_string()).or_default().push((cur.clone(), detail.clone()));
-        Some((cur, detail))
+        Shrunk::To(cur, detail)
     }
 }
 
@@ -1711,7 +1733,8 @@ fn run_space(space: &Space, deadline: Instant) -> SpaceResult {
         name: space.name(),
         total,
         done: r.cases_done,
-        capped: r.capped || r.cases_done < total,
+        // (vcore also raises its flag when the deadline passes after the last chunk was handed out)
+        capped: r.cases_done < total,
         nontrivial: 0,
         error_free: 0,
         validations: 0,
@@ -1868,7 +1891,7 @@ fn main() {
     let deadline = Instant::now() + sweep_budget;
     let results: Vec<SpaceResult> = spaces.iter().map(|s| run_space(s, deadline)).collect();
 
-    // ---- collect the failing cases, classify the abnormal ones by a single-case run
+    // ---- collect the failing cases, classify the abnormal ones
     let prober = Prober::new();
     let mut failing: Vec<Failing> = vec![];
     let mut unreproduced = 0u64;
@@ -1888,9 +1911,25 @@ fn main() {
                 });
             }
         }
-        let ab_cases: Vec<(u64, Case)> = r.abnormal.iter().map(|(i, _)| (*i, space.case(*i))).collect();
+        // a worker that gave up after WORKER_STALL_MS of CPU time on a case (exit 86) has
+        // measured the stall itself; any other abnormal end is looked at in a single run
+        let (stalled, other): (Vec<_>, Vec<_>) = r
+            .abnormal
+            .iter()
+            .partition(|(_, ab)| matches!(ab, Abnormal::Crashed { code: Some(86), .. }));
+        for (idx, _) in stalled {
+            *sig_totals.entry("hang".into()).or_default() += 1;
+            failing.push(Failing {
+                space: r.name,
+                idx: *idx,
+                sig: "hang".into(),
+                detail: format!("no result after {WORKER_STALL_MS} ms of CPU time in the sweep worker"),
+                case: space.case(*idx),
+            });
+        }
+        let ab_cases: Vec<(u64, Case)> = other.iter().map(|(i, _)| (*i, space.case(*i))).collect();
         let probed = vcore::par_for(ab_cases.len(), vcore::ncores(), |i| prober.probe(&ab_cases[i].1, CASE_TIMEOUT_MS));
-        for (((idx, case), (_, ab)), pr) in ab_cases.into_iter().zip(&r.abnormal).zip(probed) {
+        for (((idx, case), (_, ab)), pr) in ab_cases.into_iter().zip(other).zip(probed) {
             if pr.fails.is_empty() {
                 // the case ran to completion and passed in a process of its own: the worker's
                 // end was not caused by this input (machine load, external kill)
@@ -1911,20 +1950,23 @@ fn main() {
         }
     }
     let examined_cases = failing.len();
-    // cheap-to-shrink signatures first, hangs (every confirming run costs a deadline) last
-    failing.sort_by_key(|f| (f.sig == "hang", f.case.files.len(), f.case.root_text().len(), f.space, f.idx));
+    // shortest inputs first (they give the minimal texts that longer ones are matched against)
+    failing.sort_by_key(|f| (f.case.files.len(), f.case.root_text().len(), f.space, f.idx));
 
     // ---- shrink, key, report
     let mut shr = Shrinker {
         prober: &prober,
         minimal: BTreeMap::new(),
         threads: vcore::ncores(),
-        deadline: Instant::now() + Duration::from_secs(tier.pick(30, 150)),
+        deadline: Instant::now() + Duration::from_secs(tier.pick(25, 150)),
         fast_timeout_ms: tier.pick(300, 1000),
         cut_short: 0,
         hang_stage: HashMap::new(),
     };
-    let mut panic_funcs: HashMap<(String, String), Option<String>> = HashMap::new();
+    // panic signature (stage, file, line) -> key of its class, fixed by its shortest example
+    let mut panic_keys: HashMap<String, String> = HashMap::new();
+    // (key, example text, signature) of panic classes whose example is still to be shrunk
+    let mut to_polish: Vec<(String, String, String)> = vec![];
     // key -> (examined cases, what, replay)
     let mut classes: BTreeMap<String, (u64, String, Value)> = BTreeMap::new();
     for f in &failing {
@@ -1939,45 +1981,56 @@ fn main() {
         } else if f.sig.starts_with("diag-") {
             // misplaced diagnostics are keyed by stage and message; the shortest input is the example
             let key = f.sig.clone();
-            if classes.contains_key(&key) {
-                classes.get_mut(&key).unwrap().0 += 1;
+            if let Some(e) = classes.get_mut(&key) {
+                e.0 += 1;
                 continue;
             }
             let pr = prober.probe(&f.case, CASE_TIMEOUT_MS);
             let detail = pr.fails.iter().find(|(s, _)| *s == f.sig).map(|(_, d)| d.clone()).unwrap_or_else(|| f.detail.clone());
             (key, format!("input {:?}: {detail}", trunc(f.case.root_text(), 120)), f.case.to_json())
+        } else if let Some(key) = panic_keys.get(&f.sig) {
+            // same panic site as a class already named
+            if let Some(e) = classes.get_mut(key) {
+                e.0 += 1;
+            }
+            continue;
+        } else if f.sig.starts_with("panic:") {
+            // a panic class is named by the panicking function (which survives line shifts and
+            // does not depend on shrinking); its shortest example is shrunk later, time permitting
+            let stage = f.sig.split(':').nth(1).unwrap_or("");
+            let key = match prober.panic_function(&f.case, &f.sig) {
+                Some(func) => format!("panic:{stage}:{func}"),
+                None => format!("{}:{}", f.sig, esc(&trunc(f.case.root_text(), 60))),
+            };
+            panic_keys.insert(f.sig.clone(), key.clone());
+            if !classes.contains_key(&key) {
+                to_polish.push((key.clone(), f.case.root_text().to_string(), f.sig.clone()));
+            }
+            (key, format!("input {:?}: {}", trunc(f.case.root_text(), 120), f.detail), f.case.to_json())
         } else {
             match shr.shrink(f.case.root_text(), &f.sig) {
-                None => (
+                Shrunk::NotReproduced => {
+                    unreproduced += 1;
+                    transient.push(json!({"space": f.space, "index": f.idx, "input": trunc(f.case.root_text(), 200), "worker": f.detail}));
+                    continue;
+                }
+                Shrunk::OutOfTime => (
                     format!("{}:(not shrunk, out of time)", key_sig(&f.sig)),
                     format!("input {:?}: {}", trunc(f.case.root_text(), 120), f.detail),
                     f.case.to_json(),
                 ),
-                Some((frag, detail)) => {
+                Shrunk::To(frag, detail) => {
                     let shrunk = Case::plain(frag.clone());
-                    let mut sig = key_sig(&f.sig);
-                    if f.sig.starts_with("panic:") {
-                        // name the class by the panicking function rather than by file and line
-                        let func = panic_funcs
-                            .entry((f.sig.clone(), frag.clone()))
-                            .or_insert_with(|| prober.panic_function(&shrunk, &f.sig));
-                        if let Some(func) = func {
-                            let stage = f.sig.split(':').nth(1).unwrap_or("");
-                            sig = format!("panic:{stage}:{func}");
-                        }
-                    }
-                    if sig == "hang" {
+                    let key = if f.sig == "hang" {
                         // one extra run per fragment tells parsing from validation
                         let st = *shr.hang_stage.entry(frag.clone()).or_insert_with(|| {
                             if prober.run_raw(&shrunk, true, CASE_TIMEOUT_MS).has("hang") { "parse" } else { "validate" }
                         });
-                        sig = format!("hang:{st}");
-                    }
-                    (
-                        format!("{sig}:{}", esc(&frag)),
-                        format!("input {:?}: {detail}", trunc(&frag, 120)),
-                        shrunk.to_json(),
-                    )
+                        format!("hang:{st}:{}", esc(&frag))
+                    } else {
+                        format!("{}:{}", f.sig, esc(&frag))
+                    };
+                    (key, format!("input {:?}: {detail}", trunc(&frag, 120)), shrunk.to_json())
                 }
             }
         };
@@ -1989,6 +2042,22 @@ fn main() {
         rj["signature"] = json!(f.sig);
         rj["found_as"] = found_as;
         classes.insert(key, (1, what, rj));
+    }
+    // smaller examples for the panic classes, with whatever time is left
+    for (key, text, sig) in &to_polish {
+        if let Shrunk::To(frag, detail) = shr.shrink(text, sig) {
+            if let Some(e) = classes.get_mut(key) {
+                let keep: Vec<(String, Value)> = ["space", "signature", "found_as"]
+                    .iter()
+                    .map(|k| (k.to_string(), e.2[*k].clone()))
+                    .collect();
+                e.1 = format!("input {:?}: {detail}", trunc(&frag, 120));
+                e.2 = Case::plain(frag).to_json();
+                for (k, v) in keep {
+                    e.2[k] = v;
+                }
+            }
+        }
     }
     // one graph class per signature: the smallest failing graph stands for the others
     let mut final_classes: Vec<(String, u64, String, Value)> = vec![];
@@ -2007,7 +2076,7 @@ fn main() {
     for (key, n, what, replay) in &final_classes {
         // one Reporter call per examined failing case keeps its case counts honest
         for _ in 0..*n {
-            rep.violation(key, &format!("{what} [{n} examined failing inputs reduce to this class]"), replay.clone());
+            rep.violation(key, &format!("{what} [{n} examined failing inputs belong to this class]"), replay.clone());
         }
     }
 
@@ -2087,7 +2156,7 @@ fn main() {
     rep.assume("a case that does not return within 2 s of CPU time of its thread (15 s of wall time if it is not using CPU) or needs more than 2 GiB of address space counts as non-terminating; while shrinking, candidates get a shorter CPU deadline and the result is confirmed with the full one");
     rep.assume("in sub-spaces a, aw, b, c the resolver knows only the root source, so include statements there exercise the unresolved-include path; resolved includes are covered by sub-space d only (3 files, each include at most twice per file, chains up to MAX_INCLUDE_DEPTH+2)");
     rep.assume("which include statements were refused is read from the error diagnostics; the oracle then checks that the tree spells exactly the expansion with those statements left in place, and that every cyclic or over-deep graph has at least one error");
-    rep.assume("failing inputs are grouped by signature (failure kind + panicking source file) and a delta-debugged minimal sub-text; two defects with the same signature whose minimal texts are sub-sequences of one another would share a key");
+    rep.assume("failing inputs are grouped into classes: a panic by stage and panicking function (innermost fea-rs frame), a misplaced diagnostic by stage and message, anything else (hang, lossy text) by a delta-debugged, token-canonicalised minimal text; workers report per chunk and signature the 16 shortest failing cases and count the rest, so a second defect behind the same signature and minimal text would share a key");
     rep.assume("chains of MAX_INCLUDE_DEPTH/2+1 ..= MAX_INCLUDE_DEPTH nested includes may be accepted or rejected (the depth at which rejection starts is recorded, not judged)");
     rep.finish()
 }
